@@ -88,10 +88,10 @@ theorem key_inj' {s : State} (hi : Inv s) {c1 c2 : Cand}
   · simp only [candOk] at h1 h2
     obtain ⟨sl, hsl⟩ : ∃ sl, s.exprs[l]? = some sl := ⟨s.exprs[l], List.getElem?_eq_getElem h1⟩
     obtain ⟨sl', hsl'⟩ : ∃ sl', s.exprs[l']? = some sl' := ⟨s.exprs[l'], List.getElem?_eq_getElem h2⟩
-    have hk := h.2.2
+    have hk := h.2.2.2
     rw [keyAt_some hsl, keyAt_some hsl'] at hk
     have := hi.key_unique hsl hsl' hk
-    simp [skel, h.1, h.2.1, this]
+    simp [skel, h.1, h.2.1, h.2.2.1, this]
   · simp only [candOk] at h1 h2
     have := map_inj_on (tlkAt s) a a' (fun x hx y hy hxy => tlkAt_inj hi (h1.2.2 x hx) (h2.2.2 y hy) hxy) h.2
     simp [skel, h.1, this]
@@ -459,53 +459,20 @@ theorem no_rte' : ∀ (ops : List Cand) (s : State), Inv s →
                             | (rcases hx with (hx | hx) | hx; exact .inl hx; exact .inr (.inl hx); exact .inr (.inr hx))
           exact ht v l v' l' (sub _ h1) (sub _ h2)
 
-/-! ### plain values: the code's value class is strict equality -/
+/-! ### NaN-free values: the code's value class is strict equality of type name and content -/
 
-theorem stripTwos_spec : ∀ (fuel m : Nat) (e : Int),
-    e ≤ (stripTwos fuel m e).2 ∧ (stripTwos fuel m e).1 * 2 ^ ((stripTwos fuel m e).2 - e).toNat = m
-  | 0, m, e => by simp [stripTwos]
-  | fuel + 1, m, e => by
-      unfold stripTwos
-      by_cases h : m % 2 = 0 ∧ m ≠ 0
-      · rw [if_pos h]
-        obtain ⟨h1, h2⟩ := stripTwos_spec fuel (m / 2) (e + 1)
-        refine ⟨by omega, ?_⟩
-        have : ((stripTwos fuel (m / 2) (e + 1)).2 - e).toNat = ((stripTwos fuel (m / 2) (e + 1)).2 - (e + 1)).toNat + 1 := by omega
-        rw [this, Nat.pow_succ, ← Nat.mul_assoc, h2]
-        omega
-      · rw [if_neg h]; simp
+theorem PyFloat.plain_strRep {f : PyFloat} (hf : f.plain) : f.strRep = f := by
+  cases f with
+  | fin neg m e => exact hf
+  | inf neg => rfl
+  | nan neg p => exact absurd hf (by simp [PyFloat.plain])
 
-theorem normDy_int_inj {n n' : Bool} {m m' : Nat} (h : normDy n m 0 = normDy n' m' 0) :
-    m = m' ∧ (m = 0 ∨ n = n') := by
-  unfold normDy at h
-  have s1 := stripTwos_spec (m.log2 + 1) m 0
-  have s2 := stripTwos_spec (m'.log2 + 1) m' 0
-  by_cases h0 : m = 0 <;> by_cases h0' : m' = 0
-  · exact ⟨by rw [h0, h0'], .inl h0⟩
-  · rw [if_pos h0, if_neg h0'] at h
-    simp only [XReal.dy.injEq] at h
-    rw [← h.2.1] at s2; simp at s2; exact absurd s2.2.symm h0'
-  · rw [if_neg h0, if_pos h0'] at h
-    simp only [XReal.dy.injEq] at h
-    rw [h.2.1] at s1; simp at s1; exact absurd s1.2.symm h0
-  · rw [if_neg h0, if_neg h0'] at h
-    simp only [XReal.dy.injEq] at h
-    refine ⟨?_, .inr h.1⟩
-    rw [← s1.2, ← s2.2, h.2.1, h.2.2]
-
-theorem int_den_inj {z z' : Int} (h : (PyData.int z).den = (PyData.int z').den) : z = z' := by
-  simp only [PyData.den, Den.num.injEq, and_true] at h
-  have := normDy_int_inj h
-  rcases this with ⟨h1, h2 | h2⟩
-  · omega
-  · simp only [decide_eq_decide] at h2; omega
-
-theorem PyFloat.plain_den_inj {f f' : PyFloat} (hf : f.plain) (hf' : f'.plain) (h : f.den = f'.den) : f = f' := by
-  cases f <;> cases f' <;> simp only [PyFloat.plain] at hf hf' <;> simp only [PyFloat.den, Option.some.injEq] at h
-  · rw [hf, hf'] at h; simp only [XReal.dy.injEq] at h; simp [h]
-  · rw [hf] at h; cases h
-  · rw [hf'] at h; cases h
-  · simp only [XReal.inf.injEq] at h; rw [h]
+theorem PyData.plain_strRep {d : PyData} (h : d.plain) : d.strRep = d := by
+  cases d with
+  | int z => rfl
+  | flt f => simp only [PyData.strRep, PyFloat.plain_strRep h]
+  | cplx re im => simp only [PyData.strRep, PyFloat.plain_strRep h.1, PyFloat.plain_strRep h.2]
+  | str s => rfl
 
 theorem PyFloat.plain_den_some {f : PyFloat} (hf : f.plain) : ∃ r, f.den = some r := by
   cases f <;> simp only [PyFloat.plain] at hf <;> simp [PyFloat.den]
@@ -520,40 +487,17 @@ theorem PyData.plain_not_nan {d : PyData} (h : d.plain) : d.den ≠ .nan := by
       simp [PyData.den, hr, hi]
   | str s => simp [PyData.den]
 
-theorem PyData.plain_den_inj {d d' : PyData} (hd : d.plain) (hd' : d'.plain) (hs : d.shape = d'.shape)
-    (h : d.den = d'.den) : d = d' := by
-  cases d <;> cases d' <;> simp only [PyData.shape, reduceCtorEq] at hs
-  · rw [int_den_inj h]
-  · next f f' =>
-      obtain ⟨r, hr⟩ := PyFloat.plain_den_some hd
-      obtain ⟨r', hr'⟩ := PyFloat.plain_den_some hd'
-      simp only [PyData.den, hr, hr', Den.num.injEq, and_true] at h
-      rw [PyFloat.plain_den_inj hd hd' (by rw [hr, hr', h])]
-  · next re im re' im' =>
-      obtain ⟨r, hr⟩ := PyFloat.plain_den_some hd.1
-      obtain ⟨i, hi⟩ := PyFloat.plain_den_some hd.2
-      obtain ⟨r', hr'⟩ := PyFloat.plain_den_some hd'.1
-      obtain ⟨i', hi'⟩ := PyFloat.plain_den_some hd'.2
-      simp only [PyData.den, hr, hr', hi, hi', Den.num.injEq] at h
-      rw [PyFloat.plain_den_inj hd.1 hd'.1 (by rw [hr, hr', h.1]),
-          PyFloat.plain_den_inj hd.2 hd'.2 (by rw [hi, hi', h.2])]
-  · simp only [PyData.den, Den.str.injEq] at h; rw [h]
-
-/-- For plain values the code's constant identification is strict equality of type and content. -/
+/-- For NaN-free values the code's constant identification (== class, type name, str) is strict
+equality of type name and content, sign of zero included. -/
 theorem plain_canon {v w : PyVal} (hv : v.Plain) (hw : w.Plain) :
-    (canon v = canon w ∧ v.tname = w.tname) ↔ (v.tname = w.tname ∧ v.data = w.data) := by
-  have nv := PyData.plain_not_nan hv.2
-  have nw := PyData.plain_not_nan hw.2
+    (canon v = canon w ∧ v.tname = w.tname ∧ v.data.strRep = w.data.strRep) ↔ (v.tname = w.tname ∧ v.data = w.data) := by
+  have nv := PyData.plain_not_nan hv
+  have nw := PyData.plain_not_nan hw
   unfold canon
-  rw [if_neg nv, if_neg nw]
+  rw [if_neg nv, if_neg nw, PyData.plain_strRep hv, PyData.plain_strRep hw]
   constructor
-  · rintro ⟨h1, h2⟩
-    refine ⟨h2, PyData.plain_den_inj hv.2 hw.2 ?_ (by simpa using h1)⟩
-    have a := hv.1; have b := hw.1
-    rw [h2, b] at a
-    exact (Option.some.inj a).symm
-  · rintro ⟨h1, h2⟩
-    exact ⟨by rw [h2], h1⟩
+  · rintro ⟨_, h2, h3⟩; exact ⟨h2, h3⟩
+  · rintro ⟨h1, h2⟩; exact ⟨by rw [h2], h1, h2⟩
 
 theorem skel_eq_iff_strict {c c' : Cand} (hc : c.Plain) (hc' : c'.Plain) :
     skel c = skel c' ↔ StrictStructEq c c' := by
@@ -561,7 +505,7 @@ theorem skel_eq_iff_strict {c c' : Cand} (hc : c.Plain) (hc' : c'.Plain) :
   · next v l v' l' =>
     have := plain_canon hc hc'
     constructor
-    · rintro ⟨h1, h2, h3⟩; exact ⟨(this.1 ⟨h1, h2⟩).1, (this.1 ⟨h1, h2⟩).2, h3⟩
-    · rintro ⟨h1, h2, h3⟩; exact ⟨(this.2 ⟨h1, h2⟩).1, (this.2 ⟨h1, h2⟩).2, h3⟩
+    · rintro ⟨h1, h2, h3, h4⟩; exact ⟨(this.1 ⟨h1, h2, h3⟩).1, (this.1 ⟨h1, h2, h3⟩).2, h4⟩
+    · rintro ⟨h1, h2, h3⟩; exact ⟨(this.2 ⟨h1, h2⟩).1, (this.2 ⟨h1, h2⟩).2.1, (this.2 ⟨h1, h2⟩).2.2, h3⟩
 
 end FAVerif.HashCons
